@@ -46,7 +46,6 @@ func c08(c *Ctx) {
 		p75       = "(*http2.priorityWriteSchedulerRFC7540)."
 		p92       = "(*http2.priorityWriteSchedulerRFC9218)."
 		wd        = "$r.write.(*http2.writeData)#0"
-		allowed   = "φ($r.stream.sc.maxFrameSize|φ($0|available(&$r.stream.flow)))"
 		siws      = sc + "processSettingInitialWindowSize"
 		siwsField = "http2.serverConn.initialStreamSendWindowSize"
 	)
@@ -108,6 +107,10 @@ func c08(c *Ctx) {
 
 	// ---- Consume's clamp chain --------------------------------------------------
 	takes := Calls(take)
+	// The clamp ("allowed") is identified by what it is, not by how it is computed: the amount handed to take on
+	// the split path. The ArgLE rules below prove it <= available(), <= the caller's budget and <= maxFrameSize
+	// (for two clamping ifs as well as for min(...)); the remaining rules are stated over that value.
+	allowed, okBound := hsConsumeBound(c, Consume)
 	c.Count(Consume, takes, 2, 2)
 	c.Callers(take, Consume, "(*http2.clientStream).awaitFlowControl")
 	c.ArgLE(Consume, takes, 1, "available(&$r.stream.flow)")
@@ -115,11 +118,13 @@ func c08(c *Ctx) {
 	c.ArgLE(Consume, takes, 1, "$r.stream.sc.maxFrameSize")
 	c.Has(Consume, takes.ArgIs(0, "&$r.stream.flow"))
 	c.Count(Consume, takes.ArgIs(0, "&$r.stream.flow"), 2, 2)
-	c.Reject(Consume, Union(takes, RetConst(2, "2")), allowed+" <= 0")
-	c.PassThroughIncl(Consume, c.Edge(allowed+" <= 0"), RetConst(2, "0"))
-	c.PassThroughIncl(Consume, c.Edge("len("+wd+".p) > "+allowed), takes.ArgIs(1, allowed))
-	c.PassThroughIncl(Consume, c.Edge("len("+wd+".p) <= "+allowed), takes.ArgIs(1, "len("+wd+".p)"))
-	c.Guard(Consume, takes.ArgIs(1, "len("+wd+".p)"), "len("+wd+".p) <= "+allowed)
+	if okBound { // (not identified: already recorded as undecided, the check fails)
+		c.Reject(Consume, Union(takes, RetConst(2, "2")), allowed+" <= 0")
+		c.PassThroughIncl(Consume, c.Edge(allowed+" <= 0"), RetConst(2, "0"))
+		c.PassThroughIncl(Consume, c.Edge("len("+wd+".p) > "+allowed), takes.ArgIs(1, allowed))
+		c.PassThroughIncl(Consume, c.Edge("len("+wd+".p) <= "+allowed), takes.ArgIs(1, "len("+wd+".p)"))
+		c.Guard(Consume, takes.ArgIs(1, "len("+wd+".p)"), "len("+wd+".p) <= "+allowed)
+	}
 	c.NeverAfter(Consume, takes.ArgIs(1, "len("+wd+".p)"), RetConst(2, "2"), false)
 	consumeSplitFlow(c, Consume)
 	// requests without payload bypass the window
@@ -150,6 +155,56 @@ func c08(c *Ctx) {
 	c.NeverAfter(wu, c.Edge("!"+connAdd), RetOK(), true)
 	c.NeverAfter(wu, c.Edge("!"+stAdd), RetOK(), true)
 	c.ResultUsed(wu, Calls(add))
+}
+
+// hsConsumeBound returns the rendered term of the byte bound of FrameWriteRequest.Consume: the amount
+// handed to outflow.take by the take call(s) dominating the two-piece return (a request is split exactly
+// at the bound). The term is whatever the code computes (a chain of clamping ifs, min(...), ...); what it
+// is bounded by is proven separately over the value.
+func hsConsumeBound(c *Ctx, name string) (string, bool) {
+	rule := "anchor"
+	construct := name + ": the byte bound (amount taken on the split path)"
+	fn := c.MustFn(name)
+	if fn == nil {
+		return "", false
+	}
+	rets := RetConst(2, "2").F(c.P, fn)
+	if len(rets) == 0 {
+		c.Undecided(rule, construct, "no two-piece return found (idiom not recognised)")
+		return "", false
+	}
+	terms := map[string]bool{}
+	for _, ret := range rets {
+		n := 0
+		for _, in := range Calls("(*http2.outflow).take").F(c.P, fn) {
+			if in.Block().Dominates(ret.Block()) {
+				n++
+				terms[Term(HcUnwrap(HcCallArg(in, 1)))] = true
+			}
+		}
+		if n == 0 {
+			c.Fail(rule, construct, InstrPos(ret), "a two-piece return is reached without a preceding outflow.take")
+			return "", false
+		}
+	}
+	if len(terms) != 1 {
+		var ts []string
+		for t := range terms {
+			ts = append(ts, t)
+		}
+		sort.Strings(ts)
+		c.Undecided(rule, construct, "the split paths take different amounts: "+strings.Join(ts, " ; ")+" (idiom not recognised)")
+		return "", false
+	}
+	for t := range terms {
+		if t == "len($r.write.(*http2.writeData)#0.p)" {
+			c.Fail(rule, construct, fn.Pos(), "the split path takes the whole payload length")
+			return "", false
+		}
+		c.OK(rule, construct, t)
+		return t, true
+	}
+	return "", false
 }
 
 // retLE: every return's idx-th result is provably <= bound.
